@@ -23,8 +23,15 @@ from . import common, progrun
 CPPFLAGS = ["-P", "-U__GNUC__", "-U__GNUC_MINOR__", "-D__STDC_NO_ATOMICS__", "-D__STDC_NO_COMPLEX__",
             "-U__SIZEOF_INT128__", "-U__PIC__", "-D__extension__="]
 
+FIXED_WITNESS = {   # witnesses of repaired defects: must pass (a failure is an ordinary violation)
+    "phi-nonpredecessor-after-noreturn": "_Noreturn void die(void); int f(int c){ return c ? (die(), 0) : 1; }\n"
+    "void out(long); int h(int c){ if (c) { return 1; out((1U && 0) || c); } return (die(), 1) && c; }\n",
+    "goto-undefined": "void f(void){ a: goto a; }\n",
+    "fold-lor-land-size": "int a = -0.0 || 0; int b = 5 || 0;\n",
+    "zero-overaligned": "void f(void){struct {_Alignas(32) char c; char d[40];} r = {4};}\n",
+}
+
 WITNESS = {
-    "phi-nonpredecessor-after-noreturn": "_Noreturn void die(void); int f(int c){ return c ? (die(), 0) : 1; }\n",
     "vla-typedef-size-not-dominating": "void out(long); void f(int n, int c){ typedef int T[n]; if (c) out(sizeof(T)); out(sizeof(T)); }\n",
 }
 
@@ -105,6 +112,12 @@ def run(ck):
                 ck.notes.append("model stale: witness of %s now passes wf" % fid)
         else:
             ck.notes.append("witness of %s is now rejected by cproc (fixed?)" % fid)
+
+    for fid, src in FIXED_WITNESS.items():
+        p = os.path.join(d, "fw_%s.c" % fid)
+        open(p, "w").write(src)
+        for targ, _ in progrun.TARGETS:
+            jobs.append(("corpus", p, targ, True))
 
     # 1. regression corpus
     corpus = sorted(glob.glob(os.path.join(common.REPO, "test", "*.c")))
